@@ -496,6 +496,7 @@ func genForward(ctx *Ctx, prop string) {
 		pipelinedLarge(ctx, be, withList)
 		pipelinedLargeRequests(ctx, be, noList)
 		connioPhase(ctx)
+		lz4Phase(ctx)
 	}
 }
 
